@@ -328,7 +328,7 @@ fn render_history(ctx: &Ctx, st: &mut Stats, seed: u64, png: bool, j: &J) {
 /// one unit of the schedule workload: deterministic digest of build + renders
 fn schedule_unit(seed: u64, caps: &oracle::tables::Caps) -> u64 {
     let mut rng = Rng::new(seed);
-    let mv = if rng.chance(1, 8) { 40 } else { 10 };
+    let mv = if rng.chance(1, 8) { 40 } else if rng.chance(1, 2) { 14 } else { 6 };
     let (input, class) = random_input(&mut rng, mv, caps);
     let mut cfg = Config::new(&input);
     if rng.chance(1, 2) {
@@ -514,7 +514,7 @@ pub fn run(ctx: &Ctx) -> Report {
     let reps = ctx.tier.pick(1, ctx.scale(20));
     for rep in 0..reps {
         for &threads in &[1usize, 2, 4, 8, 16] {
-            let j = J::Schedule { seed: mix(ctx.seed, (rep * 100 + threads) as u64), threads, njobs: ctx.tier.pick(300, 500) };
+            let j = J::Schedule { seed: mix(ctx.seed, (rep * 100 + threads) as u64), threads, njobs: ctx.tier.pick(700, 1000) };
             let mut s = Stats::new();
             observe(ctx, &mut s, &j);
             st.merge(s);
